@@ -29,6 +29,8 @@ const (
 	PHeaderPause
 	PReservedFlags
 	PFirstSessionCut
+	PSlicedPayloads
+	PReceiverStall
 )
 
 var ProbeNames = map[int]string{
@@ -44,6 +46,8 @@ var ProbeNames = map[int]string{
 	PHeaderPause:            "peer_paused_6s_or_40s_inside_a_frame_header",
 	PReservedFlags:          "peer_sets_reserved_flag_bits",
 	PFirstSessionCut:        "first_of_two_sessions_cut_inside_a_frame",
+	PSlicedPayloads:         "payloads_are_adjacent_subslices_of_one_buffer",
+	PReceiverStall:          "receiver_not_reading_for_seconds_while_several_senders_send",
 }
 
 const maxLen = 0x1FFFF
@@ -90,21 +94,23 @@ var cutNames = [...]string{"none", "FIN", "RST", "local-close"}
 var wireNames = [...]string{"pair", "sut-sends", "sut-receives", "duplex", "multi-sender"}
 
 type plan struct {
-	v6       bool // the peer / crossover address is an IPv6 address
-	wiring   int
-	lens     []int
-	lens2    []int // duplex: frames of the reverse direction; two sessions: frames of the second session
-	keepAt   []int // sut-receives: RFC 1002 session keep-alive packets (85 00 00 00) inserted before these frame indexes
-	resvMask byte  // sut-receives: reserved bits (0x02..0x80) the peer sets in the flags byte of frame resvAt (0 = none)
-	resvAt   int
-	twoSess  bool // sut-receives: the transport is closed after recv1 frames and connected again (second session)
-	recv1    int
-	cut1     int // two sessions: the peer ends the first session (FIN) after this many bytes of its stream (-1 = sends all)
-	cutKind  int
-	cutAt    int // byte offset in the wire stream
-	segMode  int // -1 from the choice stream, 0 whole, 1 byte by byte
-	window   int
-	quiet    bool
+	v6        bool // the peer / crossover address is an IPv6 address
+	wiring    int
+	lens      []int
+	lens2     []int // duplex: frames of the reverse direction; two sessions: frames of the second session
+	keepAt    []int // sut-receives: RFC 1002 session keep-alive packets (85 00 00 00) inserted before these frame indexes
+	resvMask  byte  // sut-receives: reserved bits (0x02..0x80) the peer sets in the flags byte of frame resvAt (0 = none)
+	resvAt    int
+	twoSess   bool // sut-receives: the transport is closed after recv1 frames and connected again (second session)
+	recv1     int
+	cut1      int // two sessions: the peer ends the first session (FIN) after this many bytes of its stream (-1 = sends all)
+	cutKind   int
+	cutAt     int // byte offset in the wire stream
+	segMode   int // -1 from the choice stream, 0 whole, 1 byte by byte
+	window    int
+	quiet     bool
+	sliced    bool  // the sender's payloads are adjacent sub-slices of one buffer (spare capacity behind each of them)
+	recvStall int64 // several senders: the receiver does not read for this long at first (the window fills up)
 }
 
 type recvRes struct {
@@ -199,6 +205,8 @@ func genPlan(o hx.Opts) *plan {
 			}
 		}
 	}
+	p.sliced = hx.G(4) == 0
+	p.recvStall = [...]int64{0, 0, 3e9, 10e9}[hx.G(4)]
 	p.v6 = hx.G(5) == 0
 	ts, r1 := hx.G(4), hx.G(maxFrames+1)
 	p.cut1 = -1
@@ -436,7 +444,7 @@ func Run(seed uint64, index int64, o hx.Opts) *hx.Result {
 	res := &hx.Result{Property: "C11", Index: index, Seed: seed, Extra: map[string]int64{}}
 	en := hx.AllKinds()
 	en[rt.KDrop], en[rt.KDup], en[rt.KTimeSkip] = false, false, false
-	cfg := rt.Config{Seed: seed, Replay: o.Replay, Verbose: o.Verbose, NPoints: o.NPoints, Bias: hx.Swarm(seed, en), MaxSteps: 3_000_000}
+	cfg := rt.Config{Seed: seed, Replay: o.Replay, Verbose: o.Verbose, NPoints: o.NPoints, Bias: hx.Swarm(seed, en), MaxSteps: 200_000_000}
 	cfg.PCT = hx.SwarmPCT(seed)
 	w := rt.NewWorld(cfg)
 	w.NoSkip = true
@@ -452,6 +460,30 @@ func Run(seed uint64, index int64, o hx.Opts) *hx.Result {
 	var sends2 []sendRes
 	var bad *hx.Violation
 
+	// sliced payloads: what the sender passes to Send are adjacent sub-slices of one buffer, each with spare capacity
+	// behind it (the next payload); Send must leave every byte of the caller's memory as it found it
+	var arenas, pristines [][]byte
+	sendable := func(fs [][]byte) [][]byte {
+		if pl == nil || !pl.sliced {
+			return fs
+		}
+		total := 8
+		for _, p := range fs {
+			total += len(p)
+		}
+		arena := make([]byte, 0, total)
+		out := make([][]byte, len(fs))
+		for i, p := range fs {
+			off := len(arena)
+			arena = append(arena, p...)
+			out[i] = arena[off : off+len(p)]
+		}
+		arena = append(arena, 0xEE, 0xEE, 0xEE, 0xEE, 0xEE, 0xEE, 0xEE, 0xEE)
+		arenas = append(arenas, arena)
+		pristines = append(pristines, append([]byte(nil), arena...))
+		rt.Probe(PSlicedPayloads)
+		return out
+	}
 	v := w.Run(func() {
 		if o.Scenario == "lenenum" {
 			pl = lenPlan(index)
@@ -648,7 +680,7 @@ func Run(seed uint64, index int64, o hx.Opts) *hx.Result {
 				// receiver might run (6 s or 40 s), then carries on
 				pauseAt, pause := -1, int64(0)
 				if pl.segMode < 0 && len(pl.keepAt) == 0 && pl.resvMask == 0 {
-					if pz := hx.F(6); pz <= 1 && len(data) > 4 {
+					if pz := hx.F(6); pz <= 3 && len(data) > 4 {
 						off, pos := 0, hx.F(len(legal)+1)
 						for i, p := range legal {
 							if i == pos {
@@ -657,7 +689,10 @@ func Run(seed uint64, index int64, o hx.Opts) *hx.Result {
 							off += 4 + len(p)
 						}
 						pauseAt = off + 1 + hx.F(3)
-						pause = [...]int64{6e9, 40e9}[pz]
+						pause = [...]int64{6e9, 40e9, 3e9, 40e9}[pz]
+						if pb := hx.F(1 << 17); pz >= 2 && pos < len(legal) && len(legal[pos]) > 1 {
+							pauseAt = off + 4 + 1 + pb%(len(legal[pos])-1) // somewhere inside the body
+						}
 						if pauseAt >= len(data) {
 							pauseAt = -1
 						} else {
@@ -779,7 +814,7 @@ func Run(seed uint64, index int64, o hx.Opts) *hx.Result {
 					return
 				}
 				peerReady.Wait(-1)
-				for _, p := range frames {
+				for _, p := range sendable(frames) {
 					n, err := tr.Send(p)
 					sends = append(sends, sendRes{n, err})
 				}
@@ -812,18 +847,24 @@ func Run(seed uint64, index int64, o hx.Opts) *hx.Result {
 				}
 			}
 			s1 := rt.GoHarness("sender-1", "", func() {
-				for _, p := range frames {
+				for _, p := range sendable(frames) {
 					n, err := a.Send(p)
 					sends = append(sends, sendRes{n, err})
 				}
 			})
 			s2 := rt.GoHarness("sender-2", "", func() {
-				for _, p := range frames2 {
+				for _, p := range sendable(frames2) {
 					n, err := a.Send(p)
 					sends2 = append(sends2, sendRes{n, err})
 				}
 			})
-			rc := rt.GoHarness("receiver", "", func() { recvs = receiveAll(b, total, false) })
+			rc := rt.GoHarness("receiver", "", func() {
+				if pl.recvStall > 0 {
+					rt.Probe(PReceiverStall)
+					rt.SleepUntil(rt.Now() + pl.recvStall) // the senders run into a full window and stay there for seconds
+				}
+				recvs = receiveAll(b, total, false)
+			})
 			rt.Join(rc, -1)
 			b.Close()
 			rt.Join(s1, -1)
@@ -852,14 +893,14 @@ func Run(seed uint64, index int64, o hx.Opts) *hx.Result {
 			}
 			ts := []*rt.Task{
 				rt.GoHarness("a-sender", "", func() {
-					for _, p := range frames {
+					for _, p := range sendable(frames) {
 						n, err := a.Send(p)
 						sends = append(sends, sendRes{n, err})
 					}
 				}),
 				rt.GoHarness("b-receiver", "", func() { recvs = receiveAll(b, len(legal), false) }),
 				rt.GoHarness("b-sender", "", func() {
-					for _, p := range frames2 {
+					for _, p := range sendable(frames2) {
 						n, err := b.Send(p)
 						sends2 = append(sends2, sendRes{n, err})
 					}
@@ -893,7 +934,7 @@ func Run(seed uint64, index int64, o hx.Opts) *hx.Result {
 				simnet.CutAfter(sconn, pl.cutAt, pl.cutKind)
 			}
 			sender := rt.GoHarness("sender", "", func() {
-				for _, p := range frames {
+				for _, p := range sendable(frames) {
 					n, err := s.Send(p)
 					sends = append(sends, sendRes{n, err})
 				}
@@ -931,6 +972,12 @@ func Run(seed uint64, index int64, o hx.Opts) *hx.Result {
 	}
 	if pl.wiring == WireMulti {
 		desc += fmt.Sprintf(" second-sender-frames=%v", pl.lens2)
+	}
+	if pl.sliced {
+		desc += " payloads=adjacent-subslices-of-one-buffer"
+	}
+	if pl.recvStall > 0 && pl.wiring == WireMulti {
+		desc += fmt.Sprintf(" receiver-starts-reading-after=%ds", pl.recvStall/1e9)
 	}
 	if len(pl.keepAt) > 0 {
 		desc += fmt.Sprintf(" keep-alive packets before frame(s) %v", pl.keepAt)
@@ -989,6 +1036,17 @@ func Run(seed uint64, index int64, o hx.Opts) *hx.Result {
 		}
 		if bad != nil {
 			bad.Msg = desc + "\n" + bad.Msg
+		}
+	}
+	if v == nil && bad == nil {
+		for i := range arenas {
+			if !bytes.Equal(arenas[i], pristines[i]) {
+				at := eqPrefix(arenas[i], pristines[i])
+				bad = &hx.Violation{Class: "caller_memory_modified", Key: wireNames[pl.wiring],
+					Msg: fmt.Sprintf("%s\nthe payloads were adjacent sub-slices of one %d-byte buffer; after the run the caller's buffer differs from what it held, first at offset %d (now % x, before % x)",
+						desc, len(arenas[i]), at, window(arenas[i], at), window(pristines[i], at))}
+				break
+			}
 		}
 	}
 	res.Violation = bad
